@@ -7,9 +7,10 @@ from vlib import InfraError, write_ndjson, read_ndjson
 import evalfam
 
 
-def run_cases(ctx, cases_path, tag, repeat, perms=0, prop="C14"):
+def run_cases(ctx, cases_path, tag, repeat, perms=0, prop="C14", coalesce=False):
     rp = os.path.join(ctx.work, "res_%s.ndjson" % tag)
-    ctx.run_vh(["teval", "--in", cases_path, "--out", rp, "--repeat", str(repeat), "--perms", str(perms)])
+    co = ["--coalesce"] if coalesce else []
+    ctx.run_vh(["teval", "--in", cases_path, "--out", rp, "--repeat", str(repeat), "--perms", str(perms)] + co)
     val = ctx.validate(rp, module="Trace_TemporalEval")
     results = {r["id"]: r for r in read_ndjson(rp)}
     for r in results.values():
@@ -26,7 +27,7 @@ def run_cases(ctx, cases_path, tag, repeat, perms=0, prop="C14"):
         cp = os.path.join(ctx.work, "confirm_%d.ndjson" % len(os.listdir(ctx.work)))
         write_ndjson(cp, [dict(id="confirm", tfacts=r["tfacts"], now=r["now"], rules=r["rules"], overlap=r.get("overlap", False))])
         rp2 = cp.replace(".ndjson", ".res.ndjson")
-        ctx.run_vh(["teval", "--in", cp, "--out", rp2, "--repeat", "20", "--perms", str(perms)])
+        ctx.run_vh(["teval", "--in", cp, "--out", rp2, "--repeat", "20", "--perms", str(perms)] + co)
         val2 = ctx.validate(rp2, module="Trace_TemporalEval", shards=1)
         ms2 = [x for x in val2["mismatches"] if x["kind"] == m["kind"]]
         if not ms2:
@@ -41,7 +42,7 @@ def run_cases(ctx, cases_path, tag, repeat, perms=0, prop="C14"):
             expected = json.dumps(ms2[0]["expected"])[:400]
         ctx.violation("%s: now=%d | %s | under %s facts=%s temporal=%s | expected %s" % (
             m["kind"], r["now"], r["text"].replace("\n", " "), v["cfgs"][:2], evalfam.facts_str(v["got"]), [(evalfam.fact_str(x[0]), x[1]) for x in v["tgot"]], expected),
-            dict(property=prop, replay_family="teval", kind=m["kind"], perms=perms, case=dict(id="replay", tfacts=r["tfacts"], now=r["now"], rules=r["rules"], overlap=r.get("overlap", False)),
+            dict(property=prop, replay_family="teval", kind=m["kind"], perms=perms, coalesce=coalesce, case=dict(id="replay", tfacts=r["tfacts"], now=r["now"], rules=r["rules"], overlap=r.get("overlap", False)),
                  program_text=r["text"], observed=v, expected=ms2[0]["expected"]))
     if ctx.notes.get("unreproduced") and not ctx.violations:
         raise InfraError("temporal evaluation mismatch did not reproduce: %s" % ctx.notes["unreproduced"][:1])
@@ -80,16 +81,24 @@ def check_c14(ctx):
     g = ctx.gen_cases("MC_TemporalGen", "MC_TemporalGen_let_sim.cfg", lt, simulate=dict(num=1500 if quick else 20000, depth=7), idprefix="tl-")
     ctx.notes["generators"]["let_programs"] = g["cases"]
     run_cases(ctx, lt, "let", 1 if quick else 3)
+    # coalesce-first: overlapping, nested, touching and half-unbounded intervals of two atoms go into the temporal store,
+    # TemporalStore.Coalesce runs for every predicate, then the rules are evaluated; expected = the operators' meaning over
+    # TemporalStore!CoalesceDB(facts, 0) (T13c: the constructive coalescing meets CoalesceOK), in 2 + k insertion orders
+    evalfam.model_check(ctx, "MC_Coalesce", "MC_Coalesce.cfg", workers=2)
+    co = os.path.join(ctx.work, "t_coalesce.ndjson")
+    g = ctx.gen_cases("MC_TemporalGen", "MC_TemporalGen_overlap_sim.cfg", co, simulate=dict(num=2500 if quick else 30000, depth=10), idprefix="tco-")
+    ctx.notes["generators"]["coalesce_first_programs"] = g["cases"]
+    run_cases(ctx, co, "coalesced", 1 if quick else 2, perms=3 if quick else 8, coalesce=True)
     for r in list(res2.values())[:3]:
         ctx.add_sample(dict(program=r["text"], now=r["now"], facts=[evalfam.fact_str(a) for a in r["variants"][0]["got"]],
                             temporal=[(evalfam.fact_str(x[0]), x[1]) for x in r["variants"][0]["tgot"]]))
     ctx.exhaustive = True
-    ctx.assumptions += ["one timeline unit is one second from 2024-01-01T00:00:00Z; base facts are coalesced (the property's premise); windows satisfy a <= b",
+    ctx.assumptions += ["one timeline unit is one second from 2024-01-01T00:00:00Z; base facts are coalesced (the property's premise) either by construction or by TemporalStore.Coalesce before the rules run; windows satisfy a <= b",
                         "each program is run as written and with reversed clause/fact order on rotating store kinds, with and without deterministic order (C05 for temporal programs)",
                         "constant annotations in rule bodies have no documented meaning and are not generated; an annotation variable that already has a value is read as an equality with the stored bound (unification)"]
     return ctx.finish("model_checking",
                       "temporal programs generated by TLC (TemporalGen): base facts on a 0..5 timeline, evaluation times 0..5, windows 0<=a<=b<=3 incl. zero-length and end-touching, the four operators, interval variable binding, "
-                      "the @[T] point shorthand, head annotations (variables, now, constants), two-rule chains, two-literal joins on interval variables and let-transforms on temporal rules; regular and temporal store after EvalProgram compared with TemporalSem!TModel by TLC; "
+                      "the @[T] point shorthand, head annotations (variables, now, constants), two-rule chains, two-literal joins on interval variables, let-transforms on temporal rules, and overlapping / nested / touching base facts coalesced through the store's API before evaluation; regular and temporal store after EvalProgram compared with TemporalSem!TModel by TLC; "
                       "non-trivial = derives at least one fact; distinct by (program text, evaluation time)")
 
 
@@ -97,7 +106,7 @@ def replay(ctx, obj):
     ctx.build_vh()
     cp = os.path.join(ctx.work, "replay.ndjson")
     write_ndjson(cp, [obj["case"]])
-    run_cases(ctx, cp, "replay", 10, perms=obj.get("perms", 0), prop=ctx.prop)
+    run_cases(ctx, cp, "replay", 10, perms=obj.get("perms", 0), prop=ctx.prop, coalesce=obj.get("coalesce", False))
     ctx.nontrivial.update(["r1", "r2"])
     ctx.add_sample(obj.get("program_text", ""))
     return ctx.finish("model_checking", "replay of one temporal program")
